@@ -458,3 +458,188 @@ Proof.
   - apply in_range_returns_value; auto. now rewrite edge_top_secondary.
   - apply out_of_range_errors; auto. now rewrite edge_top_secondary.
 Qed.
+
+(* ------------------------------------------------------------------ per-point tables *)
+
+Lemma nth_skipn {A} (l : list A) k i d : nth i (skipn k l) d = nth (k + i) l d.
+Proof.
+  revert l. induction k; intros l; simpl; auto. destruct l; simpl; auto. now destruct i.
+Qed.
+
+Lemma skipn_flat_map {A} (g : nat -> list A) P :
+  (forall k, length (g k) = P) ->
+  forall c m s, (c <= m)%nat -> skipn (c * P) (flat_map g (seq s m)) = flat_map g (seq (s + c) (m - c)).
+Proof.
+  intros Hg. induction c; intros m s Hc.
+  - simpl. now rewrite Nat.add_0_r, Nat.sub_0_r.
+  - destruct m; [lia|]. simpl seq. simpl flat_map.
+    replace (S c * P)%nat with (length (g s) + c * P)%nat by (rewrite Hg; lia).
+    rewrite skipn_app.
+    rewrite (skipn_all2 (g s)) by lia. simpl app.
+    replace (length (g s) + c * P - length (g s))%nat with (c * P)%nat by lia.
+    rewrite IHc by lia. replace (S s + c)%nat with (s + S c)%nat by lia. reflexivity.
+Qed.
+
+Section Proportional.
+  Variable v : Q -> Q.
+  Variable n : positive.
+  Variable m : nat.
+  Hypothesis Hm : (1 <= m)%nat.
+  Variable c : Q.
+
+  Lemma prop_range Lm : 0 < Lm ->
+    (Qabs (c * Lm) <= edge Lm n m <-> Qabs c <= inject_Z (Z.of_nat m) / inject_Z (Zpos n)).
+  Proof.
+    intro H. rewrite Qabs_Qmult, (Qabs_pos Lm) by lra. unfold edge.
+    set (r := inject_Z (Z.of_nat m) / inject_Z (Z.pos n)). split; intro; nra.
+  Qed.
+
+  Lemma prop_kcls Lm : 0 < Lm -> kcls Lm n (Qabs (c * Lm)) = kcls 1 n (Qabs c).
+  Proof.
+    intro H. unfold kcls. f_equal. f_equal. apply Qceiling_comp.
+    rewrite Qabs_Qmult, (Qabs_pos Lm) by lra. field. lra.
+  Qed.
+
+  Lemma prop_singles Ls0 :
+    Forall (fun Lm => 0 < Lm) Ls0 -> Qabs c <= inject_Z (Z.of_nat m) / inject_Z (Zpos n) ->
+    Forall2 (fun Lm q => binned v Lm n m (c * Lm) = Val q) Ls0
+      (map (fun p => qsgn (fst p) * v (edge (snd p) n (kcls 1 n (Qabs c)))) (combine (map (Qmult c) Ls0) Ls0)).
+  Proof.
+    intros Hpos Hin. induction Ls0 as [|Lm Lr IH]; simpl; constructor.
+    - inversion Hpos; subst. rewrite lookup_is_upper_edge; auto.
+      + now rewrite prop_kcls.
+      + now apply prop_range.
+    - apply IH. now inversion Hpos.
+  Qed.
+End Proportional.
+
+Lemma hd_pos (l : list Q) : l <> [] -> Forall (fun x => 0 < x) l -> 0 < hd 0 l.
+Proof. destruct l; [congruence|]. intros _ H. now inversion H. Qed.
+
+Lemma hd_scaled c (l : list Q) : l <> [] -> hd 0 (map (Qmult c) l) = c * hd 0 l.
+Proof. destruct l; [congruence|]. reflexivity. Qed.
+
+Section Multi.
+  Variable v : Q -> Q.
+  Variable Lmaxs : list Q.
+  Variable n : positive.
+  Variable m : nat.
+
+  Let P := length Lmaxs.
+  Let row (k : nat) := map (fun Lm => let e := edge Lm n k in (e, v e)) Lmaxs.
+
+  Lemma row_length k : length (row k) = P.
+  Proof. unfold row. now rewrite map_length. Qed.
+
+  Lemma mtable_rows : mtable v Lmaxs n m = flat_map row (seq 1 m).
+  Proof. reflexivity. Qed.
+
+  Lemma class_rows_mtable c : (c < m)%nat -> class_rows P (mtable v Lmaxs n m) c = row (S c).
+  Proof.
+    intro Hc. unfold class_rows. rewrite mtable_rows, (skipn_flat_map row P row_length) by lia.
+    destruct (m - c)%nat eqn:E; [lia|]. simpl seq. simpl flat_map.
+    rewrite firstn_app, row_length, Nat.sub_diag. simpl firstn at 2. rewrite app_nil_r.
+    rewrite <- (row_length (1 + c)). now rewrite firstn_all.
+  Qed.
+
+  (* per-point tables for several points equal the tables each point gets alone:
+     the row of class c+1 and point i of the flat table is row c of the single table of point i *)
+  Theorem multi_table_is_single_tables c i :
+    (c < m)%nat -> (i < P)%nat ->
+    nth (c * P + i) (mtable v Lmaxs n m) (0, 0) = nth c (table v (nth i Lmaxs 0) n m) (0, 0).
+  Proof.
+    intros Hc Hi. rewrite table_nth by auto.
+    rewrite <- nth_skipn.
+    assert (nth i (skipn (c * P) (mtable v Lmaxs n m)) (0, 0) = nth i (class_rows P (mtable v Lmaxs n m) c) (0, 0)).
+    { unfold class_rows. revert Hi. generalize (skipn (c * P) (mtable v Lmaxs n m)). generalize P.
+      induction i; intros P0 l H; destruct P0; try lia; destruct l; simpl; auto. apply IHi. lia. }
+    rewrite H, class_rows_mtable by auto. unfold row.
+    rewrite nth_indep with (d' := (fun Lm => let e := edge Lm n (S c) in (e, v e)) 0) by (now rewrite map_length).
+    now rewrite (map_nth (fun Lm => let e := edge Lm n (S c) in (e, v e))).
+  Qed.
+
+  Theorem mtable_length : length (mtable v Lmaxs n m) = (m * P)%nat.
+  Proof.
+    rewrite mtable_rows. generalize 1%nat. induction m; intro s; simpl; auto.
+    now rewrite app_length, row_length, IHn0.
+  Qed.
+
+  Hypothesis Hne : Lmaxs <> [].
+  Hypothesis Hpos : Forall (fun Lm => 0 < Lm) Lmaxs.
+  Hypothesis Hm : (1 <= m)%nat.
+
+  Lemma P_pos : (1 <= P)%nat.
+  Proof. unfold P. destruct Lmaxs; [congruence | simpl; lia]. Qed.
+
+  Lemma first_point_edges :
+    map fst (first_point_rows P (mtable v Lmaxs n m) m) = edges (hd 0 Lmaxs) n m.
+  Proof.
+    unfold first_point_rows, edges. rewrite map_map, <- seq_shift, map_map.
+    apply map_ext_in. intros c Hc. apply in_seq in Hc.
+    pose proof P_pos.
+    replace (c * P)%nat with (c * P + 0)%nat by lia.
+    rewrite multi_table_is_single_tables by lia. rewrite table_nth by lia. simpl.
+    now destruct Lmaxs.
+  Qed.
+
+  Lemma signed_row Ls k : length Ls = P ->
+    signed Ls (row k) = map (fun p => qsgn (fst p) * v (edge (snd p) n k)) (combine Ls Lmaxs).
+  Proof.
+    unfold row, P. clear. revert Ls. induction Lmaxs; intros Ls H; destruct Ls; simpl in *; try lia; auto.
+    f_equal. apply IHl. lia.
+  Qed.
+
+  Variable c : Q.
+
+  (* loads proportional to the per-point maxima: the class found for point 0 is every point's own class,
+     so the multi-point look-up equals the single-point look-ups; it raises iff every single one raises *)
+  Theorem multi_equals_single :
+    match mbinned v Lmaxs n m (map (Qmult c) Lmaxs) with
+    | MVal qs => Forall2 (fun Lm q => binned v Lm n m (c * Lm) = Val q) Lmaxs qs
+    | MErr => Forall (fun Lm => binned v Lm n m (c * Lm) = Err) Lmaxs
+    end.
+  Proof.
+    unfold mbinned, mlookup_rows. fold P. rewrite first_point_edges.
+    rewrite (hd_scaled c Lmaxs Hne). pose proof (hd_pos Lmaxs Hne Hpos) as H0.
+    set (L0 := hd 0 Lmaxs) in *.
+    destruct (Qlt_le_dec (inject_Z (Z.of_nat m) / inject_Z (Zpos n)) (Qabs c)) as [Hout|Hin].
+    - (* out of range for every point *)
+      assert (edge L0 n m < Qabs (c * L0)).
+      { apply Qnot_le_lt. intro C. apply (prop_range n m c L0 H0) in C. lra. }
+      rewrite (ss_edges_above L0 n m _ H0 H).
+      destruct (Nat.ltb_spec m (m + 1)); [|lia].
+      eapply Forall_impl; [|exact Hpos]. intros Lm HLm. apply out_of_range_errors; auto.
+      apply Qnot_le_lt. intro C. apply (prop_range n m c Lm HLm) in C. lra.
+    - assert (Qabs (c * L0) <= edge L0 n m) by (now apply prop_range).
+      rewrite (ss_edges L0 n m _ H0 Hm H).
+      pose proof (kcls_in_range L0 n m _ H0 Hm H). pose proof (kcls_ge1 L0 n (Qabs (c * L0))).
+      destruct (Nat.ltb_spec m (kcls L0 n (Qabs (c * L0)) - 1 + 1)); [lia|].
+      rewrite class_rows_mtable by lia.
+      replace (S (kcls L0 n (Qabs (c * L0)) - 1)) with (kcls L0 n (Qabs (c * L0))) by lia.
+      rewrite signed_row by (unfold P; now rewrite map_length).
+      rewrite (prop_kcls n c L0 H0).
+      now apply prop_singles.
+  Qed.
+End Multi.
+
+(* ------------------------------------------------------------------ non-vacuity *)
+
+Definition ex_law (x : Q) : Q := 3 * x.
+
+(* Lmax = 16, 4 classes of width 4: inside a class, on an edge, negative, zero, top edge, above the maximum *)
+Example ex_values :
+  map (fun p => res_eqb (binned ex_law 16 4 4 (fst p)) (snd p))
+      [(9 # 2, Val 24); (4, Val 12); (-4, Val (-12)); (-(9 # 2), Val (-24)); (0, Val 0); (16, Val 48);
+       (-16, Val (-48)); (33 # 2, Err); (-(33 # 2), Err)]
+  = [true; true; true; true; true; true; true; true; true].
+Proof. vm_compute. reflexivity. Qed.
+
+(* three points with maxima 16, 32, 8 and proportional loads (|load| = max/4 at every point, each with its own sign) *)
+Example ex_multi :
+  mres_eqb (mbinned ex_law [16; 32; 8] 4 4 [-4; 8; 2]) (MVal [-12; 24; 6]) = true /\
+  mres_eqb (mbinned ex_law [16; 32; 8] 4 4 [17; 34; 17 # 2]) MErr = true.
+Proof. vm_compute. split; reflexivity. Qed.
+
+Example ex_law_hypotheses :
+  (forall x, 0 <= x -> 0 <= ex_law x) /\ (forall x y, 0 <= x -> x <= y -> ex_law x <= ex_law y).
+Proof. unfold ex_law. split; intros; lra. Qed.
